@@ -303,6 +303,10 @@ def run(ctx):
                     r4.fail(f.qualname, f"exclusively:{norm_text(n)}", f.file, n.lineno, f.name, f"{norm_text(n)} does not select elements exclusively: a node set touching an element only partially would load it")
 
     beam_lineload_rule(ctx)
+    from .. import beamops as _beamops
+    from ..elems import ElemLib as _ElemLib
+
+    ctx.attempt(_beamops.interpolation_rule, ctx, _ElemLib(repo), "R9.13")
     selection_rules(ctx)
 
     # ---- R9.5 point load
@@ -324,6 +328,36 @@ def run(ctx):
             r5.fail(fP.qualname, "split", fP.file, fP.lineno, "__Bc_pointLoad", f"the nodal values sum to {tot!r}, not to the prescribed total F")
     except XRaise as e:
         r5.fail(fP.qualname, "split", fP.file, fP.lineno, "__Bc_pointLoad", str(e))
+
+    # ---- R9.5b point load with several unknowns: the value of unknown d at node k sits where dof (k, d) sits
+    r5.instance(fn=fP.qualname)
+    Fs = [Poly.var("Fx"), Poly.var("Fy")]
+    obj = XObj(simu, dict(mesh=SimpleNamespace(coord=XArray((5, 3), [Q(0)] * 15))))
+    obj.attrs["_Simu__Bc_evaluate"] = lambda coord, val, option="": XArray((Nn,), [val] * Nn)
+    obj.attrs["_Simu__Check_problemTypes"] = lambda *a, **k: None
+    obj.attrs["Get_unknowns"] = lambda pt=None: ["x", "y"]
+    obj.attrs["problemType"] = Opaque("pt")
+    nodes3 = [0, 2, 4]
+    I = Interp(repo)
+    try:
+        vals, dofs = I.call_function(fP, [Opaque("pt"), XArray((Nn,), nodes3), list(Fs), ["x", "y"]], self_obj=obj)
+        vals, dofs = XArray.from_nested(vals).ravel(), XArray.from_nested(dofs).ravel()
+        got = {}
+        for v, dd in zip(vals.data, dofs.data):
+            got[int(dd)] = got.get(int(dd), Poly()) + v
+        bad = None
+        if vals.size != dofs.size:
+            bad = f"{vals.size} values for {dofs.size} dofs"
+        for k, n in enumerate(nodes3):
+            for c in range(2):
+                if bad is None and not is_zero(got.get(2 * n + c, Poly()) - Fs[c] * Q(1, Nn)):
+                    bad = f"dof {'xy'[c]} of node {n} receives {got.get(2 * n + c, Poly())!r}, expected {'Fx' if c == 0 else 'Fy'}/3"
+        if bad:
+            r5.fail(fP.qualname, "pairing", fP.file, fP.lineno, "__Bc_pointLoad", f"point load (Fx, Fy) on 3 nodes: {bad}: the values are not laid out like the dofs they are paired with")
+        else:
+            r5.ok("point load with two unknowns: each dof (node, unknown) receives F_unknown / Nn")
+    except XRaise as e:
+        r5.fail(fP.qualname, "pairing", fP.file, fP.lineno, "__Bc_pointLoad", str(e))
 
     # ---- R9.6 pressure
     r6 = ctx.rule("R9.6", "pressure: direction = mesh normals restricted to the first inDim components, same slice for the unknowns; integration over dim-1; thickness once in 2-D", min_instances=2)
